@@ -350,6 +350,9 @@ def run_sequence(kind, text, cuts):
                 out.append((f"{kind}_reader:{bk}:{_cut_class(kind, text, c2)}", msg))
             if bad:
                 break
+            if pos2 > c2:
+                out.append((f"{kind}_reader:position-beyond-visible:{_cut_class(kind, text, c2)}", f"position {pos2} > visible {c2}"))
+                break
             pos, k = pos2, k2
         return out, obs
     finally:
